@@ -443,6 +443,17 @@ pub fn gen_rawlib(src: &mut Src, o: &RawGenOpts) -> RLib {
                     let t = if src.bool() { *targets.last().unwrap() } else { targets[src.index(targets.len())] };
                     insts.push(RInst { name: gen_inst_name(src, k), target: t, loc: (src.signed(5000), src.signed(5000)), o: Orient::from_index(src.index(8)), none_angle: src.bool() });
                 }
+                // coincidences: an instance repeated verbatim; two instances sharing their location, or their
+                // location with x and y exchanged
+                if !insts.is_empty() && src.prob(1, 6) {
+                    let mut twin = insts[src.index(insts.len())].clone();
+                    match src.below(3) {
+                        0 => {}
+                        1 => twin.o = Orient::from_index(src.index(8)),
+                        _ => twin.loc = (twin.loc.1, twin.loc.0),
+                    }
+                    insts.push(twin);
+                }
             }
             if o.annotations && src.prob(1, 3) {
                 annotations.push((src.pick(&["note", "TODO: fix", "A b"]).to_string(), (src.signed(100), src.signed(100))));
